@@ -165,4 +165,20 @@ PROPS = {
         "level_note": "Trusted: Lean kernel + standard axioms; go2lean; harness/driver; SimpleHandler's select loop and channel plumbing (validated with barrier requests).",
         "assumptions": ["for ephemeral events and for equal-created_at versions the OK verdict is not constrained by the monitor", "SQLite inserts are asynchronous: only reply shapes are judged here (content: C06)"],
     },
+    "C15": {
+        "lean_modules": ["MocProps.C15"], "theorem_files": ["MocProps/C15.lean"],
+        "gen_groups": ["Cache", "Matcher"], "race": True,
+        "n_quick": 6000, "n_thorough": 60000, "thorough_seeds": 3,
+        "rule": "2-4 goroutines x 1-3 calls (Add of related events: new versions at -1/0/+1 s, deletion requests of pre-loaded events, duplicates; match-everything and aimed "
+                "Find; Len) on ONE EventCache of capacity 1-4 pre-loaded with 0-3 events, 25% through concurrent CacheHandler sessions; every call stamped with a global logical clock at "
+                "invocation and response; the harness is built with -race; plus one 8-goroutine x 300-event mix per 500 cases whose listings are judged; non-trivial = at least two calls; "
+                "distinct = distinct output line; the evidence reports how many histories had overlapping calls",
+        "level_text": "Partial by nature: the theorems are (1) witness_sound — a linearization accepted by the checker is a sequential execution of the model, consistent with real time, "
+                      "that reproduces every recorded result, so the check of each recorded history is verified; (2) listing_within_capacity + C04.retention_all_histories — every state "
+                      "the sequential model can reach (hence every linearizable history) shows at most capacity events, one per address, all retained. That the Go code only produces "
+                      "linearizable, race-free histories (lock discipline, -race) is runtime-validated: every generated concurrent history is searched for a linearization against the proved "
+                      "model and the race detector watches the run.",
+        "level_note": "Trusted: Lean kernel + standard axioms; harness/driver; the Go race detector; sync.RWMutex. Real thread interleavings are sampled, not enumerated.",
+        "assumptions": ["logical-clock stamps bracket the cache call (the handler path adds a barrier COUNT that touches no cache state)"],
+    },
 }
